@@ -82,7 +82,7 @@ impl Prop for C08 {
         "C08"
     }
     fn cases(&self, tier: Tier) -> u64 {
-        tier.pick(400_000, 2_500_000)
+        tier.pick(400_000, 6_000_000)
     }
     fn max_shrink_iters(&self) -> u32 {
         2000
